@@ -20,6 +20,15 @@
 // admitted iff more popular than the shortest sufficient LRU prefix, which is exactly what goes / rejected, nobody touched)
 // for the lists and the counters. NOT covered: records queued behind other records of the same key, invalidations in flight
 // (the family KF-SYNC-1 lives exactly there), the map content afterwards.
+// The three scans of the maintenance pass are under contract for the same quiescent state (plus `quiet` / `info_coupled` /
+// `coupled_wo`: no update in flight, stamps present, a node shares its entry's bookkeeping record): `evict_lru_entries` (the
+// shortest sufficient LRU prefix leaves, counters give back exactly its weight), `remove_expired_ao`, `remove_expired_wo`
+// (exactly the maximal expired prefix of the list leaves, up to the batch size; only expired entries are removed) and their
+// glue `evict_expired`. The branches that skip updated / invalidated entries (`try_skip_updated_entry`, the dirty re-queue)
+// are proved UNREACHABLE in that state and are otherwise assumed (no postcondition).
+// Declared rewrites used here (tools/extract.py): wildcard closure parameters `|_, v|` are named (`wild`); in
+// `evict_lru_entries` the loop `for _ in 0..batch_size` is written as a `while` loop with an explicit counter because Verus
+// does not support `continue` in `for` loops (`for2while`); the `&mut`-capturing closure of `evict_expired` is inlined.
 use vstd::prelude::*;
 verus! {
 pub mod env {
@@ -34,6 +43,31 @@ pub uninterp spec fn kid<Q: ?Sized>(q: &Q) -> KeyId;
 pub open spec fn kid_arc<K>(k: Arc<K>) -> KeyId { kid::<K>(&*k) }
 
 pub struct N { pub id: int, pub key: KeyId, pub hash: u64 }
+
+// ---- time (as in the `sync` unit) ----
+#[derive(Clone, Copy)]
+#[verifier::external_body]
+pub struct Instant { x: u64 }
+impl Instant { pub uninterp spec fn t(&self) -> int; }
+pub uninterp spec fn dur_ns(d: std::time::Duration) -> int;
+pub open spec fn max_dur_ns() -> int { 1000int * 365 * 24 * 3600 * 1_000_000_000 }
+/// C05 / C06 / C07 (concurrent cache), from the property statements (the same definitions as in the `sync` unit)
+pub open spec fn sp_expired_wo(ttl: Option<std::time::Duration>, va: Option<Instant>, tm: Option<Instant>, now: Instant) -> bool {
+    tm.is_some() && ((va.is_some() && tm.unwrap().t() < va.unwrap().t()) || (ttl.is_some() && tm.unwrap().t() + dur_ns(ttl.unwrap()) <= now.t()))
+}
+pub open spec fn sp_expired_ao(tti: Option<std::time::Duration>, va: Option<Instant>, ta: Option<Instant>, now: Instant) -> bool {
+    ta.is_some() && ((va.is_some() && ta.unwrap().t() < va.unwrap().t()) || (tti.is_some() && ta.unwrap().t() + dur_ns(tti.unwrap()) <= now.t()))
+}
+impl PartialEq for Instant {
+    #[verifier::external_body]
+    fn eq(&self, o: &Instant) -> (r: bool) ensures r == (self.t() == o.t()) { unimplemented!() }
+}
+pub trait AccessTime {
+    spec fn sp_last_accessed(&self) -> Option<Instant>;
+    spec fn sp_last_modified(&self) -> Option<Instant>;
+    fn last_accessed(&self) -> (r: Option<Instant>) ensures r == self.sp_last_accessed();
+    fn last_modified(&self) -> (r: Option<Instant>) ensures r == self.sp_last_modified();
+}
 pub open spec fn has_id(s: Seq<N>, id: int) -> bool { exists|i: int| 0 <= i < s.len() && (#[trigger] s[i]).id == id }
 pub open spec fn index_of_id(s: Seq<N>, id: int) -> int { choose|i: int| 0 <= i < s.len() && (#[trigger] s[i]).id == id }
 pub open spec fn moved_to_back(s: Seq<N>, i: int) -> Seq<N> { s.remove(i).push(s[i]) }
@@ -141,6 +175,18 @@ impl FrequencySketch {
 //@@ END
 }
 
+/// dashmap::mapref::one::Ref
+#[verifier::external_body]
+#[verifier::reject_recursive_types(K)]
+#[verifier::reject_recursive_types(V)]
+pub struct CacheEntryRef<'a, K, V> { p: std::marker::PhantomData<&'a (K, V)> }
+impl<'a, K, V> CacheEntryRef<'a, K, V> { pub uninterp spec fn view(&self) -> TrioArc<super::code::ValueEntry<K, V>>; }
+impl<'a, K, V> std::ops::Deref for CacheEntryRef<'a, K, V> {
+    type Target = TrioArc<super::code::ValueEntry<K, V>>;
+    #[verifier::external_body]
+    fn deref(&self) -> (r: &TrioArc<super::code::ValueEntry<K, V>>) ensures *r == self@ { unimplemented!() }
+}
+
 /// dashmap::DashMap<Arc<K>, TrioArc<ValueEntry<K, V>>, S>, read and written through `&self`: `view` is its content when the
 /// maintenance step starts (quiescent: nobody else writes); `remove` answers from that content, which is sound as long as a
 /// key is removed at most once during the step (the victims of one admission are distinct nodes with distinct keys)
@@ -151,6 +197,19 @@ impl FrequencySketch {
 pub struct CacheStore<K, V, S> { k: std::marker::PhantomData<(K, V, S)> }
 impl<K, V, S> CacheStore<K, V, S> {
     pub uninterp spec fn view(&self) -> Map<KeyId, TrioArc<super::code::ValueEntry<K, V>>>;
+    #[verifier::external_body]
+    pub fn get(&self, key: &Arc<K>) -> (r: Option<CacheEntryRef<'_, K, V>>)
+        ensures match r { Some(e) => self@.contains_key(kid_arc(*key)) && e@ == self@[kid_arc(*key)], None => !self@.contains_key(kid_arc(*key)) }
+    { unimplemented!() }
+    /// dashmap `remove_if`: the entry under `key` is removed iff the predicate holds for it
+    #[verifier::external_body]
+    pub fn remove_if<F: FnOnce(&Arc<K>, &TrioArc<super::code::ValueEntry<K, V>>) -> bool>(&self, key: &Arc<K>, f: F) -> (r: Option<(Arc<K>, TrioArc<super::code::ValueEntry<K, V>>)>)
+        requires forall|k: &Arc<K>, v: &TrioArc<super::code::ValueEntry<K, V>>| f.requires((k, v)),
+        ensures match r {
+            Some(kv) => self@.contains_key(kid_arc(*key)) && kv.1 == self@[kid_arc(*key)] && exists|k: &Arc<K>| #[trigger] f.ensures((k, &kv.1), true),
+            None => !self@.contains_key(kid_arc(*key)) || exists|k: &Arc<K>| #[trigger] f.ensures((k, &self@[kid_arc(*key)]), false),
+        }
+    { unimplemented!() }
     #[verifier::external_body]
     pub fn remove(&self, key: &Arc<K>) -> (r: Option<(Arc<K>, TrioArc<super::code::ValueEntry<K, V>>)>)
         ensures match r { Some(kv) => self@.contains_key(kid_arc(*key)) && kv.1 == self@[kid_arc(*key)], None => !self@.contains_key(kid_arc(*key)) }
@@ -194,6 +253,8 @@ impl<K> EntryInfo<K> {
     pub uninterp spec fn sp_w(&self) -> u32;
     pub uninterp spec fn sp_ao(&self) -> Option<KeyDeqNodeAo<K>>;
     pub uninterp spec fn sp_wo(&self) -> Option<KeyDeqNodeWo<K>>;
+    pub uninterp spec fn sp_ta(&self) -> Option<Instant>;
+    pub uninterp spec fn sp_tm(&self) -> Option<Instant>;
 //@@ SIG file=src/common/concurrent/entry_info.rs owner=EntryInfo name=is_admitted
     #[verifier::external_body]
     pub fn is_admitted(&self) -> (r: bool) ensures r == self.sp_admitted() { unimplemented!() }
@@ -243,6 +304,40 @@ impl<K> EntryInfo<K> {
     pub fn unset_q_nodes(&self) { unimplemented!() }
 //@@ END
 }
+impl<K> AccessTime for EntryInfo<K> {
+    open spec fn sp_last_accessed(&self) -> Option<Instant> { self.sp_ta() }
+    open spec fn sp_last_modified(&self) -> Option<Instant> { self.sp_tm() }
+    #[verifier::external_body]
+    fn last_accessed(&self) -> (r: Option<Instant>) { unimplemented!() }
+    #[verifier::external_body]
+    fn last_modified(&self) -> (r: Option<Instant>) { unimplemented!() }
+}
+impl<K, V> AccessTime for TrioArc<super::code::ValueEntry<K, V>> {
+    open spec fn sp_last_accessed(&self) -> Option<Instant> { self@.info@.sp_ta() }
+    open spec fn sp_last_modified(&self) -> Option<Instant> { self@.info@.sp_tm() }
+    #[verifier::external_body]
+    fn last_accessed(&self) -> (r: Option<Instant>) { unimplemented!() }
+    #[verifier::external_body]
+    fn last_modified(&self) -> (r: Option<Instant>) { unimplemented!() }
+}
+impl<K> AccessTime for DeqNode<KeyHashDate<K>> {
+    open spec fn sp_last_accessed(&self) -> Option<Instant> { self.element.entry_info@.sp_ta() }
+    open spec fn sp_last_modified(&self) -> Option<Instant> { None }
+    #[verifier::external_body]
+    fn last_accessed(&self) -> (r: Option<Instant>) { unimplemented!() }
+    #[verifier::external_body]
+    fn last_modified(&self) -> (r: Option<Instant>) { unimplemented!() }
+}
+impl<K> AccessTime for DeqNode<KeyDate<K>> {
+    open spec fn sp_last_accessed(&self) -> Option<Instant> { None }
+    open spec fn sp_last_modified(&self) -> Option<Instant> { self.element.entry_info@.sp_tm() }
+    #[verifier::external_body]
+    fn last_accessed(&self) -> (r: Option<Instant>) { unimplemented!() }
+    #[verifier::external_body]
+    fn last_modified(&self) -> (r: Option<Instant>) { unimplemented!() }
+}
+/// the bookkeeping record a list node shares with its entry (`KeyHashDate.entry_info`, an `Arc` clone of the entry's `info`)
+pub uninterp spec fn node_info<K>(id: int) -> TrioArc<EntryInfo<K>>;
 
 /// THE LIST (src/common/deque.rs): assumed here, checked by the Kani window harnesses
 #[verifier::external_body]
@@ -279,6 +374,16 @@ impl<T> Deque<T> {
 //@@ END
 }
 impl<K> Deque<KeyHashDate<K>> {
+//@@ SIG file=src/common/deque.rs owner=Deque name=peek_front types=loose
+    #[verifier::external_body]
+    pub fn peek_front(&self) -> (r: Option<&DeqNode<KeyHashDate<K>>>)
+        ensures match r {
+            Some(n) => self@.len() > 0 && n.node_id() == self@[0].id && kid_arc(n.element.key) == self@[0].key && n.element.hash == self@[0].hash
+                && n.element.entry_info == node_info::<K>(self@[0].id),
+            None => self@.len() == 0,
+        }
+    { unimplemented!() }
+//@@ END
 //@@ SIG file=src/common/deque.rs owner=Deque name=push_back types=loose
     #[verifier::external_body]
     pub fn push_back(&mut self, node: Box<DeqNode<KeyHashDate<K>>>) -> (r: NonNull<DeqNode<KeyHashDate<K>>>)
@@ -288,6 +393,19 @@ impl<K> Deque<KeyHashDate<K>> {
 //@@ END
 }
 impl<K> Deque<KeyDate<K>> {
+//@@ SIG file=src/common/deque.rs owner=Deque name=peek_front types=loose
+    #[verifier::external_body]
+    pub fn peek_front(&self) -> (r: Option<&DeqNode<KeyDate<K>>>)
+        ensures match r {
+            Some(n) => self@.len() > 0 && n.node_id() == self@[0].id && kid_arc(n.element.key) == self@[0].key && n.element.entry_info == node_info::<K>(self@[0].id),
+            None => self@.len() == 0,
+        }
+    { unimplemented!() }
+//@@ END
+//@@ SIG file=src/common/deque.rs owner=Deque name=move_front_to_back
+    #[verifier::external_body]
+    pub fn move_front_to_back(&mut self) { unimplemented!() }
+//@@ END
 //@@ SIG file=src/common/deque.rs owner=Deque name=push_back types=loose
     #[verifier::external_body]
     pub fn push_back(&mut self, node: Box<DeqNode<KeyDate<K>>>) -> (r: NonNull<DeqNode<KeyDate<K>>>)
@@ -332,6 +450,10 @@ pub proof fn lemma_least_prefix(p: Seq<N>, m: Map<KeyId, u32>, cw: int, from: in
 {
     if wsum(p.take(from), m) >= cw { } else if from == p.len() { } else { lemma_least_prefix(p, m, cw, from + 1); }
 }
+pub proof fn lemma_wsum_bound(s: Seq<N>, m: Map<KeyId, u32>)
+    ensures 0 <= wsum(s, m) <= s.len() * 0xFFFF_FFFF
+    decreases s.len()
+{ if s.len() > 0 { lemma_wsum_bound(s.drop_last(), m); } }
 pub open spec fn sat_sub(a: u64, w: u32) -> u64 { if a >= w { (a - w) as u64 } else { 0 } }
 /// the running total after giving back, one after the other, the weights of the entries of the nodes `s`
 pub open spec fn sat_sub_seq(a: u64, s: Seq<N>, m: Map<KeyId, u32>) -> u64
@@ -933,6 +1055,32 @@ pub enum AdmissionResult<K> {
 
 pub open spec fn ptr_ids<K>(v: Seq<AoqNode<K>>) -> Seq<int> { v.map_values(|p: AoqNode<K>| nid(p)) }
 
+/// contracts PROVED on the real text in unit `sync`
+//@@ SIG file=src/sync/base_cache.rs owner=- name=is_expired_entry_ao
+#[verifier::external_body]
+fn is_expired_entry_ao(
+    time_to_idle: &Option<Duration>,
+    valid_after: &Option<Instant>,
+    entry: &impl AccessTime,
+    now: Instant,
+) -> (r: bool)
+    requires time_to_idle.is_some() ==> dur_ns(time_to_idle.unwrap()) <= max_dur_ns(),
+    ensures r == sp_expired_ao(*time_to_idle, *valid_after, entry.sp_last_accessed(), now),
+{ unimplemented!() }
+//@@ END
+//@@ SIG file=src/sync/base_cache.rs owner=- name=is_expired_entry_wo
+#[verifier::external_body]
+fn is_expired_entry_wo(
+    time_to_live: &Option<Duration>,
+    valid_after: &Option<Instant>,
+    entry: &impl AccessTime,
+    now: Instant,
+) -> (r: bool)
+    requires time_to_live.is_some() ==> dur_ns(time_to_live.unwrap()) <= max_dur_ns(),
+    ensures r == sp_expired_wo(*time_to_live, *valid_after, entry.sp_last_modified(), now),
+{ unimplemented!() }
+//@@ END
+
 /// only the fields the functions under contract read are declared
 #[verifier::reject_recursive_types(K)]
 #[verifier::reject_recursive_types(V)]
@@ -1249,6 +1397,563 @@ impl<K, V, S> Inner<K, V, S> {
             invariant it2.snapshot@.remaining() == sk, sk.len() == 0, *deqs == d1, *counters == c1, //@
         {
             unsafe { deqs.probation.move_to_back(node) };
+        }
+    }
+//@@ END
+
+    /// the part of the quiescent state the scans read: no entry has an update in flight, every entry carries its write stamp,
+    /// and the record a node shares with its entry is that entry's record
+    pub open spec fn quiet(m: Map<KeyId, TrioArc<ValueEntry<K, V>>>, p: Seq<N>) -> bool {
+        forall|i: int| 0 <= i < p.len() ==> {
+            &&& !m[(#[trigger] p[i]).key]@.dirty()
+            &&& m[p[i].key]@.info@.sp_tm().is_some()
+            &&& m[p[i].key]@.info == node_info::<K>(p[i].id)
+        }
+    }
+
+    pub uninterp spec fn sp_valid_after(&self) -> Option<Instant>;
+    pub open spec fn cfg_ok(&self) -> bool {
+        &&& (self.time_to_live.is_some() ==> dur_ns(self.time_to_live.unwrap()) <= max_dur_ns())
+        &&& (self.time_to_idle.is_some() ==> dur_ns(self.time_to_idle.unwrap()) <= max_dur_ns())
+    }
+//@@ SIG file=src/sync/base_cache.rs owner=Inner name=valid_after
+    #[verifier::external_body]
+    fn valid_after(&self) -> (r: Option<Instant>) ensures r == self.sp_valid_after() { unimplemented!() }
+//@@ END
+
+    /// an entry's idle deadline has passed (or it is older than the invalidate_all watermark), for the stamp this call reads
+    pub open spec fn exp_ao(&self, e: TrioArc<ValueEntry<K, V>>, now: Instant) -> bool {
+        sp_expired_ao(self.time_to_idle, self.sp_valid_after(), e@.info@.sp_ta(), now)
+    }
+    pub open spec fn info_coupled(m: Map<KeyId, TrioArc<ValueEntry<K, V>>>, p: Seq<N>) -> bool {
+        forall|i: int| 0 <= i < p.len() ==> m[(#[trigger] p[i]).key]@.info == node_info::<K>(p[i].id)
+    }
+
+//@@ FN file=src/sync/base_cache.rs owner=Inner name=remove_expired_ao tags=C06,C10,C03 rewrites=wild
+    fn remove_expired_ao(
+        &self,
+        deq_name: &str,
+        deq: &mut Deque<KeyHashDate<K>>,
+        write_order_deq: &mut Deque<KeyDate<K>>,
+        batch_size: usize,
+        now: Instant,
+        counters: &mut EvictionCounters,
+    )
+        requires //@
+            self.cfg_ok(), //@ [C08]
+            // an unused (empty) list, or the probation list in the quiescent state
+            old(deq)@.len() == 0 || (Self::coupled(self.cache@, old(deq)@) && Self::info_coupled(self.cache@, old(deq)@) && old(deq).sp_region() as usize == 1), //@ [C08,C11]
+            old(counters).entry_count >= old(deq)@.len(), //@ [C10]
+        ensures //@
+            final(deq).sp_region() == old(deq).sp_region(), //@
+            ({ //@ [C06,C07,C03,C10,C12]
+                let p0 = old(deq)@; let m = self.cache@; //@
+                let n = p0.len() - final(deq)@.len(); //@
+                &&& 0 <= n <= p0.len() && n <= batch_size //@
+                // exactly a prefix of the list leaves
+                &&& final(deq)@ == p0.skip(n) //@
+                // C03: only entries whose idle deadline has passed (or older than the watermark) are removed ...
+                &&& forall|i: int| 0 <= i < n ==> self.exp_ao(m[(#[trigger] p0[i]).key], now) //@
+                // C06: ... and the purge goes on until the batch is used up or the front entry is still alive
+                &&& (n == batch_size || n == p0.len() || !self.exp_ao(m[p0[n].key], now)) //@
+                // C10: the counters give back exactly what was removed
+                &&& final(counters).entry_count == old(counters).entry_count - n //@
+                &&& final(counters).weighted_size == sat_sub_seq(old(counters).weighted_size, p0.take(n), wmap(m)) //@
+            }), //@
+    {
+        let tti = &self.time_to_idle;
+        let va = &self.valid_after();
+        let ghost p0 = deq@; let ghost m = self.cache@; let ghost wm = wmap(self.cache@); let ghost ec0 = counters.entry_count; let ghost ws0 = counters.weighted_size; //@
+        let ghost reg = deq.sp_region(); let ghost mut cnt: int = 0; //@
+        proof { assert(p0.skip(0) =~= p0); assert(p0.take(0) =~= Seq::<N>::empty()); } //@
+        for _ in /*@+*/it:/*@-*/ 0..batch_size
+            invariant_except_break //@
+                cnt == it.index@, //@
+            invariant //@
+                self.cfg_ok(), *tti == self.time_to_idle, *va == self.sp_valid_after(), self.cache@ == m, wm == wmap(m), //@
+                p0.len() == 0 || (Self::coupled(m, p0) && Self::info_coupled(m, p0) && reg as usize == 1), //@
+                deq.sp_region() == reg, ec0 >= p0.len(), //@
+                cnt <= p0.len(), 0 <= cnt, cnt <= batch_size, //@
+                deq@ == p0.skip(cnt), //@ [C12]
+                forall|i: int| 0 <= i < cnt ==> self.exp_ao(m[(#[trigger] p0[i]).key], now), //@ [C03,C06]
+                counters.entry_count == ec0 - cnt, //@ [C10]
+                counters.weighted_size == sat_sub_seq(ws0, p0.take(cnt), wm), //@ [C10,C04]
+            ensures //@
+                cnt == batch_size || cnt == p0.len() || !self.exp_ao(m[p0[cnt].key], now), //@ [C06]
+        {
+            let ghost j = cnt; //@
+            // Peek the front node of the deque and check if it is expired.
+            let key = deq.peek_front().and_then(|node| /*@+*/-> (o: Option<Arc<K>>)/*@-*/
+                ensures o.is_some() == sp_expired_ao(*tti, *va, node.element.entry_info@.sp_ta(), now), o.is_some() ==> o.unwrap() == node.element.key //@
+            {
+                // TODO: Skip the entry if it is dirty. See `evict_lru_entries` method as an example.
+                if is_expired_entry_ao(tti, va, node, now) {
+                    Some(Arc::clone(node.element.key()))
+                } else {
+                    None
+                }
+            });
+
+            if key.is_none() {
+                break;
+            }
+
+            let key = key.as_ref().unwrap();
+
+            // Remove the key from the map only when the entry is really
+            // expired. This check is needed because it is possible that the entry in
+            // the map has been updated or deleted but its deque node we checked
+            // above have not been updated yet.
+            let maybe_entry = self
+                .cache
+                .remove_if(key, |_w0, v| /*@+*/-> (b: bool) ensures b == sp_expired_ao(*tti, *va, v@.info@.sp_ta(), now) {/*@-*/ is_expired_entry_ao(tti, va, v, now) /*@+*/}/*@-*/);
+
+            proof { //@
+                assert(deq@[0] == p0[j]); //@
+                assert(maybe_entry.is_some()); //@
+            } //@
+            if let Some((_k, entry)) = maybe_entry {
+                proof { //@
+                    let s = p0.skip(j); //@
+                    assert(entry == m[p0[j].key]); //@
+                    assert(distinct_ids(s)) by { assert forall|a: int, b: int| 0 <= a < b < s.len() implies (#[trigger] s[a]).id != (#[trigger] s[b]).id by { assert(p0[a + j].id != p0[b + j].id); } } //@
+                    lemma_index_of_id(s, 0); //@
+                    assert(s.remove(0) =~= p0.skip(j + 1)); //@
+                    assert(p0.take(j + 1).drop_last() =~= p0.take(j)); //@
+                    assert(wm[p0[j].key] == entry@.w()); //@
+                } //@
+                Self::handle_remove_with_deques(deq_name, deq, write_order_deq, entry, counters);
+                proof { cnt = cnt + 1; } //@
+            } else if !self.try_skip_updated_entry(key, deq_name, deq, write_order_deq) {
+                break;
+            }
+        }
+    }
+//@@ END
+
+    pub open spec fn exp_wo(&self, e: TrioArc<ValueEntry<K, V>>, now: Instant) -> bool {
+        sp_expired_wo(self.time_to_live, self.sp_valid_after(), e@.info@.sp_tm(), now)
+    }
+    /// the write-order side of the quiescent state: every write-order node belongs to the admitted entry under its key
+    pub open spec fn coupled_wo(m: Map<KeyId, TrioArc<ValueEntry<K, V>>>, wo: Seq<N>) -> bool {
+        &&& distinct_ids(wo)
+        &&& forall|i: int| 0 <= i < wo.len() ==> {
+            &&& m.contains_key((#[trigger] wo[i]).key)
+            &&& m[wo[i].key]@.admitted()
+            &&& m[wo[i].key]@.wo() == Some(wo[i].id)
+            &&& Deques::<K>::ao_in_probation(&m[wo[i].key]@)
+            &&& m[wo[i].key]@.info == node_info::<K>(wo[i].id)
+        }
+    }
+    /// the probation list after the access-order nodes of the entries of `gone` have left it, one after the other
+    pub open spec fn drop_nodes(p: Seq<N>, gone: Seq<N>, m: Map<KeyId, TrioArc<ValueEntry<K, V>>>) -> Seq<N>
+        decreases gone.len()
+    { if gone.len() == 0 { p } else { Deques::<K>::without(Self::drop_nodes(p, gone.drop_last(), m), m[gone.last().key]@.ao()) } }
+
+//@@ FN file=src/sync/base_cache.rs owner=Inner name=remove_expired_wo tags=C05,C10,C03 rewrites=wild
+    fn remove_expired_wo(
+        &self,
+        deqs: &mut Deques<K>,
+        batch_size: usize,
+        now: Instant,
+        counters: &mut EvictionCounters,
+    )
+        requires //@
+            self.cfg_ok(), old(deqs).regions_ok(), //@ [C08]
+            Self::coupled_wo(self.cache@, old(deqs).write_order@), //@ [C08,C11]
+            old(counters).entry_count >= old(deqs).write_order@.len(), //@ [C10]
+        ensures //@
+            final(deqs).others_same(old(deqs)), final(deqs).same_regions(old(deqs)), //@ [C11]
+            ({ //@ [C05,C07,C03,C10]
+                let w0 = old(deqs).write_order@; let m = self.cache@; //@
+                let n = w0.len() - final(deqs).write_order@.len(); //@
+                &&& 0 <= n <= w0.len() && n <= batch_size //@
+                &&& final(deqs).write_order@ == w0.skip(n) //@
+                // C03: only entries whose time to live has elapsed (or older than the watermark) are removed ...
+                &&& forall|i: int| 0 <= i < n ==> self.exp_wo(m[(#[trigger] w0[i]).key], now) //@
+                // C05: ... and the purge goes on until the batch is used up or the oldest write is still alive
+                &&& (n == batch_size || n == w0.len() || !self.exp_wo(m[w0[n].key], now)) //@
+                // C11: their access-order nodes leave the probation list as well
+                &&& final(deqs).probation@ == Self::drop_nodes(old(deqs).probation@, w0.take(n), m) //@
+                // C10
+                &&& final(counters).entry_count == old(counters).entry_count - n //@
+                &&& final(counters).weighted_size == sat_sub_seq(old(counters).weighted_size, w0.take(n), wmap(m)) //@
+            }), //@
+    {
+        let ttl = &self.time_to_live;
+        let va = &self.valid_after();
+        let ghost w0 = deqs.write_order@; let ghost pr0 = deqs.probation@; let ghost m = self.cache@; let ghost wm = wmap(self.cache@); let ghost ec0 = counters.entry_count; let ghost ws0 = counters.weighted_size; //@
+        let ghost mut cnt: int = 0; //@
+        proof { assert(w0.skip(0) =~= w0); assert(w0.take(0) =~= Seq::<N>::empty()); } //@
+        for _ in /*@+*/it:/*@-*/ 0..batch_size
+            invariant_except_break //@
+                cnt == it.index@, //@
+            invariant //@
+                self.cfg_ok(), *ttl == self.time_to_live, *va == self.sp_valid_after(), self.cache@ == m, wm == wmap(m), //@
+                Self::coupled_wo(m, w0), deqs.regions_ok(), deqs.others_same(old(deqs)), deqs.same_regions(old(deqs)), //@
+                ec0 >= w0.len(), 0 <= cnt <= w0.len(), cnt <= batch_size, //@
+                deqs.write_order@ == w0.skip(cnt), //@
+                deqs.probation@ == Self::drop_nodes(pr0, w0.take(cnt), m), //@ [C11]
+                forall|i: int| 0 <= i < cnt ==> self.exp_wo(m[(#[trigger] w0[i]).key], now), //@ [C03,C05]
+                counters.entry_count == ec0 - cnt, //@ [C10]
+                counters.weighted_size == sat_sub_seq(ws0, w0.take(cnt), wm), //@ [C10,C04]
+            ensures //@
+                cnt == batch_size || cnt == w0.len() || !self.exp_wo(m[w0[cnt].key], now), //@ [C05]
+        {
+            let ghost j = cnt; //@
+            let key = deqs.write_order.peek_front().and_then(|node| /*@+*/-> (o: Option<Arc<K>>)/*@-*/
+                ensures o.is_some() == sp_expired_wo(*ttl, *va, node.element.entry_info@.sp_tm(), now), o.is_some() ==> o.unwrap() == node.element.key //@
+            {
+                // TODO: Skip the entry if it is dirty. See `evict_lru_entries` method as an example.
+                if is_expired_entry_wo(ttl, va, node, now) {
+                    Some(Arc::clone(node.element.key()))
+                } else {
+                    None
+                }
+            });
+
+            if key.is_none() {
+                break;
+            }
+
+            let key = key.as_ref().unwrap();
+
+            let maybe_entry = self
+                .cache
+                .remove_if(key, |_w0, v| /*@+*/-> (b: bool) ensures b == sp_expired_wo(*ttl, *va, v@.info@.sp_tm(), now) {/*@-*/ is_expired_entry_wo(ttl, va, v, now) /*@+*/}/*@-*/);
+
+            proof { //@
+                assert(deqs.write_order@[0] == w0[j]); //@
+                assert(maybe_entry.is_some()); //@
+            } //@
+            if let Some((_k, entry)) = maybe_entry {
+                proof { //@
+                    let s = w0.skip(j); //@
+                    assert(entry == m[w0[j].key]); //@
+                    assert(distinct_ids(s)) by { assert forall|a: int, b: int| 0 <= a < b < s.len() implies (#[trigger] s[a]).id != (#[trigger] s[b]).id by { assert(w0[a + j].id != w0[b + j].id); } } //@
+                    lemma_index_of_id(s, 0); //@
+                    assert(s.remove(0) =~= w0.skip(j + 1)); //@
+                    assert(w0.take(j + 1).drop_last() =~= w0.take(j)); //@
+                    assert(w0.take(j + 1).last() == w0[j]); //@
+                    assert(wm[w0[j].key] == entry@.w()); //@
+                } //@
+                Self::handle_remove(deqs, entry, counters);
+                proof { cnt = cnt + 1; } //@
+            } else if let Some(entry) = self.cache.get(key) {
+                if entry.is_dirty() {
+                    deqs.move_to_back_ao(&entry);
+                    deqs.move_to_back_wo(&entry);
+                } else {
+                    // The key exists but something unexpected. Break.
+                    break;
+                }
+            } else {
+                // Skip this entry as the key might have been invalidated. Since the
+                // invalidated ValueEntry (which should be still in the write op
+                // queue) has a pointer to this node, move the node to the back of
+                // the deque instead of popping (dropping) it.
+                deqs.write_order.move_front_to_back();
+            }
+        }
+    }
+//@@ END
+
+    // ---- the two scans in a row: what the first leaves behind is still a quiescent state for the second ----
+    pub proof fn lemma_has_id_remove(p: Seq<N>, k: int, x: int)
+        requires distinct_ids(p), 0 <= k < p.len(), x != p[k].id
+        ensures has_id(p.remove(k), x) == has_id(p, x)
+    {
+        let q = p.remove(k);
+        if has_id(p, x) {
+            let i = index_of_id(p, x);
+            assert(i != k);
+            let i2 = if i < k { i } else { i - 1 };
+            assert(q[i2].id == x);
+        }
+        if has_id(q, x) {
+            let i = index_of_id(q, x);
+            let i2 = if i < k { i } else { i + 1 };
+            assert(p[i2].id == x);
+        }
+    }
+    pub proof fn lemma_coupled_remove(m: Map<KeyId, TrioArc<ValueEntry<K, V>>>, p: Seq<N>, k: int)
+        requires Self::coupled(m, p), Self::info_coupled(m, p), 0 <= k < p.len()
+        ensures Self::coupled(m, p.remove(k)), Self::info_coupled(m, p.remove(k))
+    {
+        let q = p.remove(k);
+        assert forall|i: int| 0 <= i < q.len() implies #[trigger] q[i] == p[if i < k { i } else { i + 1 }] by {}
+        assert(distinct_ids(q)) by { assert forall|i: int, j: int| 0 <= i < j < q.len() implies (#[trigger] q[i]).id != (#[trigger] q[j]).id by {
+            assert(p[if i < k { i } else { i + 1 }].id != p[if j < k { j } else { j + 1 }].id); } }
+        assert forall|i: int, j: int| 0 <= i < j < q.len() implies (#[trigger] q[i]).key != (#[trigger] q[j]).key by {
+            assert(p[if i < k { i } else { i + 1 }].key != p[if j < k { j } else { j + 1 }].key); }
+        assert forall|i: int| 0 <= i < q.len() implies {
+            &&& m.contains_key((#[trigger] q[i]).key) && m[q[i].key]@.admitted() && m[q[i].key]@.ao() == Some(q[i].id) && m[q[i].key]@.ao_tag() == Some(1usize)
+            &&& m[q[i].key]@.info == node_info::<K>(q[i].id)
+        } by { let i2 = if i < k { i } else { i + 1 }; assert(q[i] == p[i2]); assert(m.contains_key(p[i2].key)); }
+    }
+    /// the entries of the write-order nodes `gone` own pairwise different nodes of `p`
+    pub open spec fn links(m: Map<KeyId, TrioArc<ValueEntry<K, V>>>, gone: Seq<N>, p: Seq<N>) -> bool {
+        &&& forall|i: int| 0 <= i < gone.len() ==> m[(#[trigger] gone[i]).key]@.ao().is_some() && has_id(p, m[gone[i].key]@.ao().unwrap())
+        &&& forall|i: int, j: int| 0 <= i < j < gone.len() ==> m[(#[trigger] gone[i]).key]@.ao() != m[(#[trigger] gone[j]).key]@.ao()
+    }
+    pub proof fn lemma_drop_nodes(m: Map<KeyId, TrioArc<ValueEntry<K, V>>>, p: Seq<N>, gone: Seq<N>)
+        requires Self::coupled(m, p), Self::info_coupled(m, p), Self::links(m, gone, p)
+        ensures ({
+            let q = Self::drop_nodes(p, gone, m);
+            &&& Self::coupled(m, q) && Self::info_coupled(m, q) && q.len() == p.len() - gone.len()
+            &&& forall|x: int| #[trigger] has_id(q, x) == (has_id(p, x) && forall|i: int| 0 <= i < gone.len() ==> m[(#[trigger] gone[i]).key]@.ao() != Some(x))
+        })
+        decreases gone.len()
+    {
+        if gone.len() > 0 {
+            let g1 = gone.drop_last(); let last = gone.last();
+            assert(Self::links(m, g1, p)) by {
+                assert forall|i: int| 0 <= i < g1.len() implies m[(#[trigger] g1[i]).key]@.ao().is_some() && has_id(p, m[g1[i].key]@.ao().unwrap()) by { assert(g1[i] == gone[i]); }
+                assert forall|i: int, j: int| 0 <= i < j < g1.len() implies m[(#[trigger] g1[i]).key]@.ao() != m[(#[trigger] g1[j]).key]@.ao() by { assert(g1[i] == gone[i] && g1[j] == gone[j]); }
+            }
+            Self::lemma_drop_nodes(m, p, g1);
+            let q1 = Self::drop_nodes(p, g1, m);
+            assert(last == gone[gone.len() - 1]);
+            let x = m[last.key]@.ao().unwrap();
+            assert(has_id(p, x));
+            assert(has_id(q1, x)) by { assert forall|i: int| 0 <= i < g1.len() implies m[(#[trigger] g1[i]).key]@.ao() != Some(x) by { assert(g1[i] == gone[i]); } }
+            let k = index_of_id(q1, x);
+            Self::lemma_coupled_remove(m, q1, k);
+            let q = q1.remove(k);
+            assert(Self::drop_nodes(p, gone, m) == q);
+            assert forall|y: int| #[trigger] has_id(q, y) == (has_id(p, y) && forall|i: int| 0 <= i < gone.len() ==> m[(#[trigger] gone[i]).key]@.ao() != Some(y)) by {
+                if y == x {
+                    // x itself is gone: distinct ids of q1
+                    if has_id(q, x) { let i = index_of_id(q, x); let i2 = if i < k { i } else { i + 1 }; assert(q1[i2].id == x); if i2 < k { assert(q1[i2].id != q1[k].id); } else { assert(q1[k].id != q1[i2].id); } }
+                    assert(m[gone[gone.len() - 1].key]@.ao() == Some(x));
+                } else {
+                    Self::lemma_has_id_remove(q1, k, y);
+                    if has_id(p, y) && (forall|i: int| 0 <= i < g1.len() ==> m[(#[trigger] g1[i]).key]@.ao() != Some(y)) {
+                        assert forall|i: int| 0 <= i < gone.len() implies m[(#[trigger] gone[i]).key]@.ao() != Some(y) by { if i < g1.len() { assert(g1[i] == gone[i]); } }
+                    }
+                    if forall|i: int| 0 <= i < gone.len() ==> m[(#[trigger] gone[i]).key]@.ao() != Some(y) {
+                        assert forall|i: int| 0 <= i < g1.len() implies m[(#[trigger] g1[i]).key]@.ao() != Some(y) by { assert(g1[i] == gone[i]); }
+                    }
+                }
+            }
+        }
+    }
+
+    pub uninterp spec fn sp_now(&self) -> Instant;
+//@@ SIG file=src/sync/base_cache.rs owner=Inner name=current_time_from_expiration_clock
+    #[verifier::external_body]
+    fn current_time_from_expiration_clock(&self) -> (r: Instant) ensures r == self.sp_now() { unimplemented!() }
+//@@ END
+//@@ SIG file=src/sync/base_cache.rs owner=Inner name=has_valid_after
+    #[verifier::external_body]
+    fn has_valid_after(&self) -> (r: bool) ensures r == self.sp_valid_after().is_some() { unimplemented!() }
+//@@ END
+
+    /// what the expiry pass does to the quiescent state: n1 entries leave by time to live, then n2 by idle time / watermark
+    pub open spec fn rel_evict_expired(&self, p0: Seq<N>, w0: Seq<N>, c0: EvictionCounters, d: Deques<K>, c: EvictionCounters, batch: int, n1: int, n2: int) -> bool {
+        let m = self.cache@; let now = self.sp_now();
+        let p1 = Self::drop_nodes(p0, w0.take(n1), m);
+        &&& 0 <= n1 <= w0.len() && n1 <= batch && 0 <= n2 <= p1.len() && n2 <= batch
+        &&& (self.time_to_live.is_none() ==> n1 == 0)
+        &&& (self.time_to_idle.is_none() && self.sp_valid_after().is_none() ==> n2 == 0)
+        // C03: only expired entries leave
+        &&& (forall|i: int| 0 <= i < n1 ==> self.exp_wo(m[(#[trigger] w0[i]).key], now))
+        &&& (forall|i: int| 0 <= i < n2 ==> self.exp_ao(m[(#[trigger] p1[i]).key], now))
+        // C05 / C06: each scan goes on until its batch is used up or its front entry is alive
+        &&& (self.time_to_live.is_some() ==> n1 == batch || n1 == w0.len() || !self.exp_wo(m[w0[n1].key], now))
+        &&& (self.time_to_idle.is_some() || self.sp_valid_after().is_some() ==> n2 == batch || n2 == p1.len() || !self.exp_ao(m[p1[n2].key], now))
+        // C11 / C10
+        &&& d.probation@ == p1.skip(n2)
+        &&& c.entry_count == c0.entry_count - n1 - n2
+        &&& c.weighted_size == sat_sub_seq(sat_sub_seq(c0.weighted_size, w0.take(n1), wmap(m)), p1.take(n2), wmap(m))
+    }
+
+//@@ FN file=src/sync/base_cache.rs owner=Inner name=evict_expired tags=C05,C06,C10,C03 rewrites=inline:rm_expired_ao
+    fn evict_expired(
+        &self,
+        deqs: &mut Deques<K>,
+        batch_size: usize,
+        counters: &mut EvictionCounters,
+    )
+        requires //@
+            self.cfg_ok(), old(deqs).regions_ok(), old(deqs).window@.len() == 0, old(deqs).protected@.len() == 0, //@ [C08]
+            // QUIESCENT STATE of both lists
+            Self::coupled(self.cache@, old(deqs).probation@), Self::info_coupled(self.cache@, old(deqs).probation@), //@ [C08,C11]
+            self.time_to_live.is_some() ==> Self::coupled_wo(self.cache@, old(deqs).write_order@) && Self::links(self.cache@, old(deqs).write_order@, old(deqs).probation@) //@
+                && old(deqs).write_order@.len() <= old(deqs).probation@.len(), //@ [C08,C11]
+            old(counters).entry_count == old(deqs).probation@.len(), //@ [C10]
+        ensures //@
+            final(deqs).window@.len() == 0, final(deqs).protected@.len() == 0, final(deqs).same_regions(old(deqs)), //@ [C11]
+            exists|n1: int, n2: int| #[trigger] self.rel_evict_expired(old(deqs).probation@, old(deqs).write_order@, *old(counters), *final(deqs), *final(counters), batch_size as int, n1, n2), //@ [C05,C06,C03,C10,C11]
+    {
+        let now = self.current_time_from_expiration_clock();
+        let ghost p0 = deqs.probation@; let ghost w0 = deqs.write_order@; let ghost m = self.cache@; let ghost c0 = *counters; //@
+        let ghost mut n1: int = 0; //@
+        proof { assert(w0.take(0) =~= Seq::<N>::empty()); } //@
+
+        if self.is_write_order_queue_enabled() {
+            self.remove_expired_wo(deqs, batch_size, now, counters);
+            proof { //@
+                n1 = w0.len() - deqs.write_order@.len(); //@
+                assert(Self::links(m, w0.take(n1), p0)) by { //@
+                    let g = w0.take(n1); //@
+                    assert forall|i: int| 0 <= i < g.len() implies m[(#[trigger] g[i]).key]@.ao().is_some() && has_id(p0, m[g[i].key]@.ao().unwrap()) by { assert(g[i] == w0[i]); } //@
+                    assert forall|i: int, j: int| 0 <= i < j < g.len() implies m[(#[trigger] g[i]).key]@.ao() != m[(#[trigger] g[j]).key]@.ao() by { assert(g[i] == w0[i] && g[j] == w0[j]); } //@
+                } //@
+            } //@
+        }
+        proof { Self::lemma_drop_nodes(m, p0, w0.take(n1)); } //@
+        let ghost p1 = deqs.probation@; let ghost c1 = *counters; //@
+
+        if self.time_to_idle.is_some() || self.has_valid_after() {
+            let (window, probation, protected, wo) = (
+                &mut deqs.window,
+                &mut deqs.probation,
+                &mut deqs.protected,
+                &mut deqs.write_order,
+            );
+
+            self . remove_expired_ao ( "window" , window , wo , batch_size , now , counters );
+            self . remove_expired_ao ( "probation" , probation , wo , batch_size , now , counters );
+            self . remove_expired_ao ( "protected" , protected , wo , batch_size , now , counters );
+        }
+        proof { //@
+            let n2 = p1.len() - deqs.probation@.len(); //@
+            assert(p1.take(0) =~= Seq::<N>::empty()); //@
+            assert(p1.skip(0) =~= p1); //@
+            assert(self.rel_evict_expired(p0, w0, c0, *deqs, *counters, batch_size as int, n1, n2)); //@
+        } //@
+    }
+//@@ END
+
+    /// skipping a node whose entry was updated or invalidated in the meantime: never happens in the quiescent state; ASSUMED
+    /// (no postcondition: whatever it does to the two lists is unknown here)
+//@@ SIG file=src/sync/base_cache.rs owner=Inner name=try_skip_updated_entry
+    #[verifier::external_body]
+    fn try_skip_updated_entry(
+        &self,
+        key: &K,
+        deq_name: &str,
+        deq: &mut Deque<KeyHashDate<K>>,
+        write_order_deq: &mut Deque<KeyDate<K>>,
+    ) -> (r: bool)
+    { unimplemented!() }
+//@@ END
+
+//@@ FN file=src/sync/base_cache.rs owner=Inner name=evict_lru_entries tags=C12,C04,C10 rewrites=wild,for2while
+    fn evict_lru_entries(
+        &self,
+        deqs: &mut Deques<K>,
+        batch_size: usize,
+        weights_to_evict: u64,
+        counters: &mut EvictionCounters,
+    )
+        requires //@
+            Self::coupled(self.cache@, old(deqs).probation@), Self::quiet(self.cache@, old(deqs).probation@), old(deqs).regions_ok(), //@ [C08,C11]
+            old(counters).entry_count == old(deqs).probation@.len(), old(deqs).probation@.len() < 0xFFFF_FFFF, //@ [C10]
+        ensures //@
+            final(deqs).others_same(old(deqs)), final(deqs).same_regions(old(deqs)), //@ [C11]
+            // C12: the removed entries are exactly a prefix of the recency order, and the shortest one that frees enough
+            ({ //@ [C12,C04,C10,C03]
+                let p0 = old(deqs).probation@; let wm = wmap(self.cache@); //@
+                let n = p0.len() - final(deqs).probation@.len(); //@
+                &&& 0 <= n <= p0.len() && n <= batch_size //@
+                &&& final(deqs).probation@ == p0.skip(n) //@
+                &&& final(counters).entry_count == old(counters).entry_count - n //@
+                &&& final(counters).weighted_size == sat_sub_seq(old(counters).weighted_size, p0.take(n), wm) //@
+                &&& (n > 0 ==> wsum(p0.take(n - 1), wm) < weights_to_evict) //@
+                &&& (wsum(p0.take(n), wm) >= weights_to_evict || n == batch_size || n == p0.len()) //@
+            }), //@
+    {
+        const DEQ_NAME: &'static str = "probation";
+        let mut evicted = 0u64;
+        let ghost p0 = deqs.probation@; let ghost m = self.cache@; let ghost wm = wmap(self.cache@); let ghost ec0 = counters.entry_count; let ghost ws0 = counters.weighted_size; //@
+        let ghost wind = deqs.window@; let ghost prot = deqs.protected@; let ghost regs = *deqs; //@
+        let ghost mut cnt: int = 0; //@
+        proof { assert(p0.skip(0) =~= p0); assert(p0.take(0) =~= Seq::<N>::empty()); lemma_wsum_bound(p0, wm); } //@
+        let (deq, write_order_deq) = (&mut deqs.probation, &mut deqs.write_order);
+
+        let mut _fi0: usize = 0; while _fi0 < batch_size
+            invariant_except_break //@
+                cnt == _fi0, //@
+            invariant //@
+                Self::coupled(m, p0), Self::quiet(m, p0), self.cache@ == m, wm == wmap(m), //@
+                0 <= cnt <= p0.len(), cnt <= batch_size, cnt <= _fi0, _fi0 <= batch_size, p0.len() < 0xFFFF_FFFF, ec0 == p0.len(), //@
+                deq@ == p0.skip(cnt), deq.sp_region() == regs.probation.sp_region(), regs.regions_ok(), //@ [C12]
+                counters.entry_count == ec0 - cnt, //@ [C10]
+                counters.weighted_size == sat_sub_seq(ws0, p0.take(cnt), wm), //@ [C10,C04]
+                evicted == wsum(p0.take(cnt), wm), //@ [C04,C12]
+                cnt > 0 ==> wsum(p0.take(cnt - 1), wm) < weights_to_evict, //@ [C12]
+            ensures //@
+                evicted >= weights_to_evict || cnt == batch_size || cnt == p0.len(), //@ [C04]
+            decreases batch_size - _fi0, //@
+        { _fi0 += 1;
+            if evicted >= weights_to_evict {
+                break;
+            }
+
+            let maybe_key_and_ts = deq.peek_front().map(|node| /*@+*/-> (o: (Arc<K>, bool, Option<Instant>))/*@-*/
+                ensures o.0 == node.element.key, o.1 == node.element.entry_info@.sp_dirty(), o.2 == node.element.entry_info@.sp_tm() //@
+            {
+                let entry_info = node.element.entry_info();
+                (
+                    Arc::clone(node.element.key()),
+                    entry_info.is_dirty(),
+                    entry_info.last_modified(),
+                )
+            });
+            proof { //@
+                if cnt < p0.len() { //@
+                    assert(deq@[0] == p0[cnt]); //@
+                    assert(m.contains_key(p0[cnt].key)); //@
+                } //@
+            } //@
+
+            let (key, ts) = match maybe_key_and_ts {
+                Some((key, false, Some(ts))) => (key, ts),
+                // TODO: Remove the second pattern `Some((_key, false, None))` once we change
+                // `last_modified` and `last_accessed` in `EntryInfo` from `Option<Instant>` to
+                // `Instant`.
+                Some((key, true, _)) | Some((key, false, None)) => {
+                    proof { assert(false); } //@
+                    if self.try_skip_updated_entry(&key, DEQ_NAME, deq, write_order_deq) {
+                        continue;
+                    } else {
+                        break;
+                    }
+                }
+                None => break,
+            };
+
+            let maybe_entry = self.cache.remove_if(&key, |_w0, v| /*@+*/-> (b: bool)/*@-*/
+                ensures b == (v@.info@.sp_tm().is_some() && v@.info@.sp_tm().unwrap().t() == ts.t()) //@
+            {
+                if let Some(lm) = v.last_modified() {
+                    lm == ts
+                } else {
+                    false
+                }
+            });
+
+            proof { assert(maybe_entry.is_some()); } //@
+            if let Some((_k, entry)) = maybe_entry {
+                proof { //@
+                    let s = p0.skip(cnt); //@
+                    assert(entry == m[p0[cnt].key]); //@
+                    assert(distinct_ids(s)) by { assert forall|a: int, b: int| 0 <= a < b < s.len() implies (#[trigger] s[a]).id != (#[trigger] s[b]).id by { assert(p0[a + cnt].id != p0[b + cnt].id); } } //@
+                    lemma_index_of_id(s, 0); //@
+                    assert(s.remove(0) =~= p0.skip(cnt + 1)); //@
+                    assert(p0.take(cnt + 1).drop_last() =~= p0.take(cnt)); //@
+                    assert(wm[p0[cnt].key] == entry@.w()); //@
+                    lemma_wsum_bound(p0.take(cnt + 1), wm); //@
+                } //@
+                let weight = entry.policy_weight();
+                Self::handle_remove_with_deques(DEQ_NAME, deq, write_order_deq, entry, counters);
+                evicted = evicted.saturating_add(weight as u64);
+                proof { cnt = cnt + 1; } //@
+            } else if !self.try_skip_updated_entry(&key, DEQ_NAME, deq, write_order_deq) {
+                break;
+            }
         }
     }
 //@@ END
